@@ -384,7 +384,7 @@ def r5(ctx) -> None:
             # the path handed to the plugin is the dispatcher's path parameter
             if mcalls:
                 c = mcalls[0]
-                pa = [a for a in list(c.args) + [k.value for k in c.keywords] if path_p in lib.names_in(a)]
+                pa = [a for a in list(c.args) + [k.value for k in c.keywords] if path_p in lib.xnames(fl, a, c)]
                 ctx.ob("C19-R5", f"{name}/passes-path", bool(pa), fi, c,
                        "the plugin receives the dispatcher's path parameter")
     ctx.sites("C19-R5", "plugin method calls", n, 10)
